@@ -690,6 +690,53 @@ def r16_for_to_while(text, only=None):
     return []
 
 
+# ---------------------------------------------------------------- R17 fold over an owned Vec -> loop
+def r17_fold(text):
+    """`let P = RECV.into_iter().rev().fold(INIT, |A, X| BODY);` ->
+    `let P = { let mut fold_src_ = RECV; let mut fold_acc_ = INIT; while let Some(X) = fold_src_.pop() { let A = fold_acc_; fold_acc_ = BODY; } fold_acc_ };`
+    (reverse iteration of an owned Vec is popping from its end), and without `.rev()`
+    `... for X in fold_src_ { let A = fold_acc_; fold_acc_ = BODY; } ...` (the definition of fold).
+    Only the exact shape above is accepted: RECV must be the whole receiver of the let initialiser."""
+    m = mask(text)
+    for mt in re.finditer(r"\.\s*fold\s*\(", m):
+        op = mt.end() - 1
+        cp = match_close(m, op)
+        # receiver chain backwards
+        head = m[:mt.start()]
+        ch = re.search(r"\.\s*into_iter\s*\(\s*\)\s*(\.\s*rev\s*\(\s*\)\s*)?$", head)
+        if not ch:
+            raise Unsupported("R17: fold receiver is not `.into_iter()[.rev()]`")
+        rev = bool(ch.group(1))
+        recv_end = ch.start()
+        let = None
+        for lm in re.finditer(r"(?<![A-Za-z0-9_])let\s+[^=;]+=\s*", m[:recv_end]):
+            let = lm
+        if not let or not re.fullmatch(r"[A-Za-z0-9_\.\s]+", m[let.end():recv_end]):
+            raise Unsupported("R17: fold is not the whole initialiser of a let")
+        recv_start = let.end()
+        k = skip_ws(m, cp + 1)
+        if m[k] != ";":
+            raise Unsupported("R17: fold is not the whole initialiser of a let")
+        init_s = skip_ws(m, op + 1)
+        init_e = _expr_end(m, init_s)
+        cm = re.match(r"\s*,\s*\|\s*([a-z_][A-Za-z0-9_]*)\s*,\s*([a-z_][A-Za-z0-9_]*)\s*\|\s*", m[init_e:cp])
+        if not cm:
+            raise Unsupported("R17: fold closure is not `|acc, x| expr`")
+        acc, x = cm.group(1), cm.group(2)
+        body_s = init_e + cm.end()
+        body_e = cp
+        while body_e > body_s and m[body_e - 1].isspace():
+            body_e -= 1
+        if m[body_e - 1] == ",":
+            body_e -= 1
+        loop = ("while let Some(%s) = fold_src_.pop()" % x) if rev else ("for %s in fold_src_" % x)
+        return [Edit(recv_start, recv_start, "{ let mut fold_src_ = ", "R17"),
+                Edit(recv_end, init_s, "; let mut fold_acc_ = ", "R17"),
+                Edit(init_e, body_s, "; %s { let %s = fold_acc_; fold_acc_ = " % (loop, acc), "R17"),
+                Edit(body_e, cp + 1, "; } fold_acc_ }", "R17")]
+    return []
+
+
 # ---------------------------------------------------------------- R14 const fn
 def r14_const_fn(text):
     m = mask(text)
@@ -702,7 +749,7 @@ def r14_const_fn(text):
 # ---------------------------------------------------------------- R15 matches! with binding-free patterns is fine; nothing to do
 
 
-ITERATED = {"R6", "R7", "R10", "R11", "R15", "R16"}
+ITERATED = {"R6", "R7", "R10", "R11", "R15", "R16", "R17"}
 
 TABLE = {
     "R1": r1_visibility,
@@ -721,10 +768,11 @@ TABLE = {
     "R14": r14_const_fn,
     "R15": r15_enumerate,
     "R16": r16_for_to_while,
+    "R17": r17_fold,
 }
-ORDER = ["R2", "R1", "R1p", "R14", "R4", "R3", "R5", "R6", "R15", "R13", "R11", "R7", "R8", "R12", "R10", "R16"]
+ORDER = ["R2", "R1", "R1p", "R14", "R4", "R3", "R5", "R6", "R15", "R13", "R11", "R7", "R8", "R12", "R17", "R10", "R16"]
 
-EXEC_TOUCHING = {"R3", "R4", "R6", "R7", "R8", "R10", "R11", "R12", "R13", "R14", "R15", "R16"}
+EXEC_TOUCHING = {"R3", "R4", "R6", "R7", "R8", "R10", "R11", "R12", "R13", "R14", "R15", "R16", "R17"}
 
 
 def apply_rewrites(text, enabled, opts=None):
